@@ -167,9 +167,6 @@ structure DBI (σ : Type) where
   iter : σ → Bound → Bound → List KV
   riter : σ → Bound → Bound → List KV
   reopen : σ → σ
-  /-- what a REVERSE iterator delivers after `Seek(k)` (end bound kept).  The adapters re-position exactly as their constructors
-  do, so this is `riter` - except on badger, whose constructor marks an empty non-nil reverse start invalid while `Seek` does not. -/
-  seekR : σ → Bound → Bound → List KV := riter
 
 def memI : DBI MemDB :=
   { get := MemDB.get, load := MemDB.get, exist := fun db k => (db.get k).isSome, set := MemDB.set, del := MemDB.del,
@@ -184,8 +181,7 @@ def refI : DBI Ref :=
 len(start) == 0`).  Badger stores no empty key, so this IS the reference answer on every reachable store
 (theorem `bdg_riter_eq_ref`). -/
 def bdgI : DBI Ref :=
-  { refI with riter := fun m s e => match s with | some [] => [] | _ => Ref.riter m s e,
-              seekR := fun m s e => match s with | some [] => Ref.riter m none e | _ => Ref.riter m s e }
+  { refI with riter := fun m s e => match s with | some [] => [] | _ => Ref.riter m s e }
 
 /-- goleveldb: the reference (`Load` returns a nil value with the error since cf43a03) -/
 def ldbI : DBI Ref := refI
@@ -323,7 +319,7 @@ deriving Repr
 `Domain()` becomes `(k, end)`; the answer is `Valid()`.  (The ORIGINAL start bound is forgotten: a seek below it delivers keys
 the iterator was not created over.) -/
 def seekStore {σ} (I : DBI σ) (db : σ) (c : Cursor) (k : Bound) : Cursor × Bool :=
-  let rest := if c.rev then I.seekR db k c.e else I.iter db k c.e
+  let rest := if c.rev then I.riter db k c.e else I.iter db k c.e
   ({ c with rest := rest, s := k }, !rest.isEmpty)
 
 /-- `prefixIterator.Seek(k)`: a value receiver - the new source is assigned to a COPY, the caller's iterator is not moved; the
@@ -333,6 +329,17 @@ def seekView {σ} (I : DBI σ) (db : σ) (p : Bytes) (c : Cursor) (k : Bound) : 
 
 /-- `Next()` on an INVALID iterator: memDBIterator and prefixIterator return false, the three engine adapters panic -/
 def Engine.nextOnInvalidPanics (e : Engine) (view : Bool) : Bool := !view && e != .mem
+
+/-! ## oversized batches (KNOWN FINDING big-batch-split) -/
+
+/-- of the three probed keys (first, middle, last) of a batch of `n` Sets, how many are visible BEFORE `Write`: bolt writes the
+batch by itself when it reaches 100000 ops (`boltMaxBatchSize`), badger's WriteBatch commits by itself whenever its transaction is
+full (pinned for n = 40000 small entries); memBatch and goleveldb never do -/
+def bigBatchEarly (e : Engine) (n : Nat) : Nat :=
+  match e with
+  | .bolt => if n > 100000 then 2 else 0
+  | .bdg => if n ≥ 40000 then 2 else 0
+  | _ => 0
 
 /-! ## `Batch.ValueSize()` as each adapter counts it -/
 
